@@ -107,6 +107,13 @@ class MontField:
             return inner
         raise Untranslatable("argument of type " + ty.s)
 
+    def leaf_ty(self, ty):
+        if ty.kind in ("ref", "array"):
+            return self.leaf_ty(ty.args[0])
+        if ty.kind == "int":
+            return ty.name
+        return "u64"
+
     def n_leaves(self, ty):
         if ty.kind == "ref":
             return self.n_leaves(ty.args[0])
@@ -148,10 +155,11 @@ class MontField:
         flat = list(concrete) if concrete is not None else None
         for k, (l, ty) in enumerate(it.params):
             cnt = self.n_leaves(ty)
+            lt = self.leaf_ty(ty)
             if flat is not None:
                 lv = [flat.pop(0) for _ in range(cnt)]
             else:
-                lv = [S(ip.ctx.fresh(0, W - 1, f"x{k}_{i}"), "u64") for i in range(cnt)]
+                lv = [S(ip.ctx.fresh(0, (1 << mp.INT_TYPES[lt][0]) - 1, f"x{k}_{i}"), lt) for i in range(cnt)]
             leaves_in.append(list(lv))
             args.append(self.mk_arg(ip, ty, list(lv)))
         r = ip.run_item(it, args)
@@ -193,6 +201,22 @@ class MontField:
                 rt = it.ret
                 if rt.kind == "array":
                     return Agg({i: x for i, x in enumerate(out)}, rt.s)
+                return fld.wrap_elem(out)
+            if op in ("add", "sub"):
+                la, lb = fld.flat(ip, args[0]), fld.flat(ip, args[1])
+                A = c.define(sum_term(ip, la), "Aarg")
+                Bv = c.define(sum_term(ip, lb), "Barg")
+                c.side = getattr(c, "side", [])
+                c.side.append((list(c.pathcond), f"(and (< {A} {fld.p}) (< {Bv} {fld.p}))",
+                               f"precondition of {op} (canonical operands)"))
+                out = [S(c.fresh(0, W - 1, op), "u64") for _ in range(fld.n)]
+                O = c.define(sum_term(ip, out), "O" + op)
+                c.fact(f"(< {O} {fld.p})")
+                if op == "add":
+                    c.fact(f"(or (= {O} (+ {A} {Bv})) (= {O} (- (+ {A} {Bv}) {fld.p})))")
+                else:
+                    c.fact(f"(or (= {O} (- {A} {Bv})) (= {O} (+ (- {A} {Bv}) {fld.p})))")
+                ip.summ.append(dict(op=op, A=A, B=Bv, O=O, out=out))
                 return fld.wrap_elem(out)
             raise Untranslatable("no summary for " + op)
         return (rx, h)
